@@ -12,7 +12,7 @@ import (
 func init() {
 	register(&propInfo{
 		ID:          "C07",
-		Explanation: "Path, lock and sibling-agreement analysis of channel streaming: (R07.1) in the forwarding goroutine, between adding a registered channel to the select set and the next select, the response announcing that channel is written through the connection's locked message writer; the forwarder is started once (sync.Once) and is the only receiver of registrations; (R07.2) after a successful registration the dispatcher emits no reply of its own; (R07.3) the client's buffer is a FIFO: push and pop ends of the list are opposite; (R07.4) intake is decoupled from the consumer: the sink's hand-over into the intake channel is a select alternative to the subscription context, and the buffering goroutine never disables or rewrites a select case once the case list is built (it only appends the consumer case when there is something to deliver); (R07.5) value and close callbacks of one sink run under that sink's lock, which is only ever taken while the sink-table lock is held (lock coupling, so frames of one stream cannot overtake each other); (R07.6) the forwarder's two parallel slices (select cases and channel ids) are updated by the same removal scheme; (R07.7) inbound frames are executed in arrival order by one executor with synchronous dispatch of responses, values and closes.",
+		Explanation: "Path, lock and sibling-agreement analysis of channel streaming: (R07.1) in the forwarding goroutine, between adding a registered channel to the select set and the next select, the response announcing that channel is written through the connection's locked message writer; the forwarder is started once (sync.Once) and is the only receiver of registrations; (R07.2) after a successful registration the dispatcher emits no reply of its own; (R07.3) the client's buffer is a FIFO: push and pop ends of the list are opposite; (R07.4) intake is decoupled from the consumer: the sink's hand-over into the intake channel is a select alternative to the subscription context, and the buffering goroutine never disables or rewrites a select case once the case list is built (it only appends the consumer case when there is something to deliver); (R07.5) value and close callbacks of one sink run under that sink's lock, which is only ever taken while the sink-table lock is held (lock coupling, so frames of one stream cannot overtake each other); (R07.6) the forwarder's two parallel slices (select cases and channel ids) are updated by the same removal scheme; (R07.7) inbound frames are executed in arrival order by one executor with synchronous dispatch of responses, values and closes. (R07.10) a sink leaves the table only together with its close.",
 		NotDecided:  "Element values and the index arithmetic of the swap-remove beyond the two slices using the same scheme; real producer/consumer speeds.",
 		Assumptions: []string{"container/list semantics", "reflect.Select picks among the cases it is given; a zero Chan disables a case"},
 		Run:         runC07,
@@ -104,7 +104,12 @@ func (c *Ctx) parallelSliceRule(rule string) {
 		b, ok := t.Underlying().(*types.Basic)
 		return ok && b.Kind() == types.Uint64
 	}
-	a, b := sliceSignature(w.OutChans, isCase), sliceSignature(w.OutChans, isID)
+	var a, b sliceSig
+	for _, g := range c.region(w.OutChans) {
+		x, y := sliceSignature(g, isCase), sliceSignature(g, isID)
+		a.moves, a.lowOnly, a.highOnly = a.moves+x.moves, a.lowOnly+x.lowOnly, a.highOnly+x.highOnly
+		b.moves, b.lowOnly, b.highOnly = b.moves+y.moves, b.lowOnly+y.lowOnly, b.highOnly+y.highOnly
+	}
 	construct := fmt.Sprintf("%s: select cases and channel ids are removed by the same scheme", fname(w.OutChans))
 	same := a.moves == b.moves && a.lowOnly == b.lowOnly && a.highOnly == b.highOnly
 	c.check(same, rule, construct, c.P.pos(w.OutChans.Pos()), fmt.Sprintf("cases %+v, ids %+v", a, b),
@@ -127,6 +132,47 @@ func runC07(c *Ctx) {
 		oc := w.OutChans
 		// the store of the registered channel into a select case
 		var join ssa.Instruction
+		// … possibly inside a helper of the forwarder (a small type that keeps the case list): then the
+		// joining point is the helper's call in the forwarder
+		if rch, ok := r.FReg.Type().(*types.Chan); ok {
+			isRegField := func(v ssa.Value) bool {
+				ld, ok := v.(*ssa.UnOp)
+				if !ok || ld.Op != token.MUL {
+					return false
+				}
+				sfa, ok := ld.X.(*ssa.FieldAddr)
+				if !ok {
+					return false
+				}
+				n, ok := sfa.X.Type().Underlying().(*types.Pointer)
+				return ok && n.Elem() == rch.Elem()
+			}
+			for _, g := range c.region(oc) {
+				if g == oc {
+					continue
+				}
+				allInstrsRaw(g, func(in ssa.Instruction) {
+					st, ok := in.(*ssa.Store)
+					if !ok {
+						return
+					}
+					fa, ok := st.Addr.(*ssa.FieldAddr)
+					if !ok || !isNamed(fa.X.Type(), "reflect", "SelectCase") || !isNamed(st.Val.Type(), "reflect", "Value") {
+						return
+					}
+					if !c.dependsOn(st.Val, isRegField, 0, map[ssa.Value]bool{}) {
+						return
+					}
+					allInstrs(oc, func(x ssa.Instruction) {
+						if ci, ok := x.(*ssa.Call); ok {
+							if h := p.syncCallee(ci); h != nil && p.inCone(h, in) {
+								join = x
+							}
+						}
+					})
+				})
+			}
+		}
 		allInstrs(oc, func(in ssa.Instruction) {
 			st, ok := in.(*ssa.Store)
 			if !ok {
